@@ -740,18 +740,18 @@ class SymNP:
         nd = a.ndim
 
         def norm(pw):
-            if is_int(pw):
+            # NumPy: scalar | (before, after) | ((before, after),) | ((b0, a0), (b1, a1), ...)
+            if not isinstance(pw, (tuple, list)):
                 return [(pw, pw)] * nd
             pw = list(pw)
-            if len(pw) == 2 and all(is_int(x) for x in pw) and True:
-                if nd == 1 or True:
-                    return [(pw[0], pw[1])] * nd
+            if len(pw) == 2 and not any(isinstance(x, (tuple, list)) for x in pw):
+                return [(pw[0], pw[1])] * nd
             if len(pw) == 1:
                 x = pw[0]
-                if is_int(x):
-                    return [(x, x)] * nd
-                return [tuple(x)] * nd
-            return [((x, x) if is_int(x) else tuple(x)) for x in pw]
+                return [tuple(x) if isinstance(x, (tuple, list)) else (x, x)] * nd
+            if len(pw) != nd:
+                raise ValueError("operands could not be broadcast together (pad_width)")
+            return [(tuple(x) if isinstance(x, (tuple, list)) else (x, x)) for x in pw]
         pws = norm(pad_width)
         cvs = norm(constant_values) if not _isarr(constant_values) else None
         if cvs is None:
